@@ -65,6 +65,15 @@ def _login(s, corpus):
             s.append("                |d, s, f| async_out(d, s, f, |h| tokio_%s::<%s, _>(h), sig_login)," % (helper, other))
             s.append("                |d, s, f| async_out(d, s, f, |h| astd_%s::<%s, _>(h), sig_login));" % (helper, other))
             s.append("        }")
+            # the protocol-parameterised reader of the collective (version 8) opcode enum
+            s.append("        {")
+            s.append("            use wow_login_messages::version_8::opcodes::%s as E8;" % enum)
+            s.append("            let pv = ProtocolVersion::try_from(%du8).unwrap();" % v)
+            s.append("            drive_read(cx, \"enum_read_protocol\", eq_pe::<E8>,")
+            s.append("                |d| sync_out(d, |c| E8::read_protocol(c, pv), sig_login),")
+            s.append("                |d, s, f| async_out(d, s, f, |h| E8::tokio_read_protocol(h, pv), sig_login),")
+            s.append("                |d, s, f| async_out(d, s, f, |h| E8::astd_read_protocol(h, pv), sig_login));")
+            s.append("        }")
             if d == "client":
                 s.append("        drive_read(cx, \"initial\", eq_dbg::<InitialMessage>,")
                 s.append("            |d| sync_out(d, |c| read_initial_message(c), sig_login),")
